@@ -648,6 +648,15 @@ pub fn sched_specs(prop: &str, tier: &str) -> Vec<HistSpec> {
                 vec![Sym::A, Sym::F, Sym::A, Sym::Fn, Sym::F, Sym::W, Sym::W],
                 vec![Sym::V, Sym::Fn, Sym::F, Sym::W],
             ];
+            // one purge making two chunks obsolete at once (rotation at every write):
+            // crashes between the unlinks of one removal request
+            for sh in [vec![Sym::A, Sym::Pfirst, Sym::F], vec![Sym::A, Sym::Pfirst, Sym::F, Sym::W]] {
+                let mut s = base_spec(prop, schedx::from_syms(&sh), Cfg::records(2));
+                s.crash = true;
+                s.o_c03 = prop == "C03";
+                s.o_c05 = prop == "C05";
+                out.push(s);
+            }
             for sh in shapes {
                 let mut s = base_spec(prop, schedx::from_syms(&sh), Cfg::records(3));
                 s.crash = true;
@@ -741,11 +750,33 @@ pub fn sched_specs(prop: &str, tier: &str) -> Vec<HistSpec> {
             }
             // the family that puts a re-appended entry below the eviction boundary
             let fam: Vec<Vec<Sym>> = vec![
+                // a snapshot taken while entries are in the open chunk, iterated after
+                // rotation, flush and further appends under cache pressure
+                vec![Sym::A, Sym::Ks, Sym::A, Sym::A, Sym::F, Sym::W, Sym::A, Sym::Ki],
+                vec![Sym::A, Sym::A, Sym::Ks, Sym::A, Sym::F, Sym::W, Sym::I, Sym::E, Sym::Ki],
                 vec![Sym::A, Sym::Aup, Sym::F, Sym::W, Sym::T, Sym::Alow, Sym::R],
                 vec![Sym::A, Sym::Aup, Sym::A, Sym::F, Sym::W, Sym::T, Sym::T, Sym::Alow, Sym::R],
                 vec![Sym::A, Sym::Aup, Sym::F, Sym::W, Sym::I, Sym::T, Sym::Alow, Sym::E, Sym::R],
                 vec![Sym::A, Sym::A, Sym::A, Sym::F, Sym::W, Sym::I, Sym::E, Sym::R, Sym::A, Sym::R],
             ];
+            if thorough {
+                let alpha2 = [Sym::A, Sym::F, Sym::W, Sym::Ks, Sym::Ki, Sym::E, Sym::T, Sym::Pfirst];
+                for len in 3..=6 {
+                    let keep = |syms: &[Sym], _ops: &[SOp]| -> bool {
+                        let ks = syms.iter().filter(|x| **x == Sym::Ks).count();
+                        let ki = syms.iter().filter(|x| **x == Sym::Ki).count();
+                        let pks = syms.iter().position(|x| *x == Sym::Ks);
+                        ks == 1 && ki == 1 && syms.last() == Some(&Sym::Ki) && pks.map(|p| p >= 1 && p + 2 < syms.len()).unwrap_or(false) && has(syms, Sym::A)
+                    };
+                    for h in schedx::histories(&alpha2, len, &keep) {
+                        for (items, cap) in [(Some(0usize), None), (Some(1), None), (None, Some(5usize))] {
+                            let mut s = base_spec(prop, h.clone(), Cfg::records(3).with_cache(items, cap));
+                            s.o_c07 = true;
+                            out.push(s);
+                        }
+                    }
+                }
+            }
             // lock-window mode: the worker also parks inside its cache write-lock
             // section, so reads are scheduled while the lock is held
             let lw: Vec<Vec<Sym>> = if thorough {
@@ -768,7 +799,12 @@ pub fn sched_specs(prop: &str, tier: &str) -> Vec<HistSpec> {
                 out.push(s);
             }
             for f in fam {
-                for (items, cap) in &caches {
+                for (ci, (items, cap)) in caches.iter().enumerate() {
+                    // the nine-operation shape with two truncations is the most expensive
+                    // one: quick tier under two of the four cache limits only
+                    if !thorough && f.len() == 9 && f.iter().filter(|x| **x == Sym::T).count() == 2 && (ci == 0 || ci == 3) {
+                        continue;
+                    }
                     let mut s = base_spec(prop, schedx::from_syms(&f), Cfg::records(3).with_cache(*items, *cap));
                     s.o_c07 = true;
                     out.push(s);
